@@ -68,9 +68,14 @@ namespace vf::vt {
         bool timeout_fired = false;
         bool last_wait_timed_out = false;    // the thread's last blocking operation ended by its deadline (and it has not blocked since)
         bool stale_token = false;            // a deferred wake-up arrived after that: it belongs to the wait that already timed out
+        int tokens_before_timed_wait = 0;    // wake-ups already pending when the thread released the cv's lock for a timed wait (site 23): none of them is for this wait
         bool finite_deadline = false;
         std::uint64_t spun_at = 0;    // progress counter value when this thread last spun (0: not spinning)
         bool spinning = false;
+        long long last_picked = 0;            // decision number at which the scheduler last picked this thread
+        std::uint64_t own_progress = 0;       // non-spinning decisions taken by this thread itself
+        bool seen_retry_site = false;         // retry-loop sites: progress of the OTHER threads when this thread last passed one
+        std::uint64_t others_at_retry_site = 0;
         std::function<void()> body;
         std::thread th;
         Agent agent;
@@ -90,9 +95,11 @@ namespace vf::vt {
         std::vector<int> trace;              // chosen thread per decision (for the replay file / samples)
         std::vector<std::pair<int, int>> branches;    // forced mode: (eligible count, picked index) per decision
         int preemptions = 0;
+        int default_streak = 0;
         bool pct_init = false;
         std::vector<long long> pct_prio;
         std::vector<long long> pct_change;
+        long long pct_low = -1000;
         std::string branch_aux() const
         {
             std::string a;
@@ -104,6 +111,7 @@ namespace vf::vt {
         bool timeouts_only_when_idle = false;    // fire a deadline only when no thread can run (excludes timeout-vs-notify races)
         long long excluded_timeout_choices = 0;
         long long tokens_consumed = 0;    // wake-ups that arrived before the target's suspension completed
+        long long resume_calls = 0;       // Agent::resume calls (= entries a notify took out of a wait queue)
         // known finding F12 (a stale deferred wake-up is delivered to the thread's NEXT timed wait, which reports it as a
         // timeout): the engine sees the precondition exactly.  With discard_on_stale_timed such a run is not judged at all
         // (DISCARD, counted as excluded) -- timeouts may then race notifications freely, every other oracle stays on.
@@ -239,11 +247,23 @@ namespace vf::vt {
             }
             else
             {
-                // default: keep running the current thread if possible, else the lowest eligible id
-                pick = el[0];
-                for (int e : el)
-                    if (e == self) pick = self;
+                // default: keep running the current thread while it can run, but fairly: after 64 decisions in a row, or when the
+                // current thread cannot continue, the eligible thread that was picked longest ago runs next (busy re-check loops in
+                // the code under test that wait for another thread would never end under "lowest id first")
+                bool self_el = false;
+                for (int e : el) if (e == self) self_el = true;
+                if (self_el && ++default_streak < 64) pick = self;
+                else
+                {
+                    default_streak = 0;
+                    pick = el[0];
+                    for (int e : el)
+                        if (e != self && (pick == self || ts[static_cast<std::size_t>(e)]->last_picked < ts[static_cast<std::size_t>(pick)]->last_picked)) pick = e;
+                    if (pick == self && el.size() > 1)
+                        for (int e : el) if (e != self) { pick = e; break; }
+                }
             }
+            ts[static_cast<std::size_t>(pick)]->last_picked = decisions;
             if (trace.size() < 4000) trace.push_back(pick);
             if (vt_trace()) std::fprintf(stderr, "  [vt] decision %lld by T%d -> T%d   (%s)\n", decisions, self, pick, state_dump().c_str());
             return pick;
@@ -277,8 +297,15 @@ namespace vf::vt {
             if (self < 0) return;
             std::unique_lock<std::mutex> l(m);
             LThread& me = *ts[static_cast<std::size_t>(self)];
-            if (is_spin) { me.spinning = true; me.spun_at = progress; }
-            else ++progress;
+            if (is_spin)
+            {
+                me.spinning = true;
+                me.spun_at = progress;
+                // PCT: a thread that spins (waits for somebody else) drops below everybody, otherwise two high-priority spinners
+                // that keep waking each other starve the thread they are waiting for
+                if (vf::vt_mode() == 1 && pct_init && static_cast<std::size_t>(self) < pct_prio.size()) pct_prio[static_cast<std::size_t>(self)] = --pct_low;
+            }
+            else { ++progress; ++me.own_progress; }
             int next = choose(self);
             if (next == self) { me.spinning = false; return; }
             switch_to(l, self, next, true);
@@ -361,6 +388,7 @@ namespace vf::vt {
             std::unique_lock<std::mutex> l(s->m);
             LThread& tgt = *s->ts[static_cast<std::size_t>(id)];
             ++s->progress;
+            ++s->resume_calls;
             if (vt_trace()) std::fprintf(stderr, "  [vt] T%d resumes T%d (state %d, woken_not_run=%d)\n", tl_self, id, (int) tgt.st, (int) tgt.woken_not_run);
             if (tgt.st == T_SUSPENDED || tgt.st == T_SLEEPING) { tgt.st = T_RUNNABLE; tgt.spinning = false; tgt.woken_not_run = true; }
             else if (tgt.woken_not_run)
@@ -395,13 +423,15 @@ namespace vf::vt {
         ++s->progress;
         if (vt_trace()) std::fprintf(stderr, "  [vt] T%d sleep_until (tokens=%d)\n", id, me.pending_resume);
         bool stale = me.stale_token;
+        int before = me.tokens_before_timed_wait;
+        (void) before;
         me.stale_token = false;
         me.last_wait_timed_out = false;
         if (me.pending_resume > 0)
         {
             --me.pending_resume;
             ++s->tokens_consumed;
-            if (stale) ++s->stale_tokens_into_timed_wait;
+            if (stale || me.tokens_before_timed_wait > 0) ++s->stale_tokens_into_timed_wait;
         }
         else
         {
@@ -416,6 +446,7 @@ namespace vf::vt {
         else if (me.st == T_SLEEPING) { me.st = T_RUNNABLE; me.timeout_fired = true; me.last_wait_timed_out = true; ++s->timeouts_fired; }
         me.woken_not_run = false;
         me.where.clear();
+        me.tokens_before_timed_wait = 0;
     }
     inline void Agent::sleep_for(pika::chrono::steady_duration const& d, char const* desc)
     {
@@ -430,7 +461,27 @@ namespace vf::vt {
         if (site > 0 && site < site_max) ++s->site_hits[site];
         if (vt_trace()) std::fprintf(stderr, "  [vt] T%d at site %d\n", tl_self, site);
         if (s->on_site) s->on_site(site, obj, a, b);
-        s->decision(false);
+        bool spin = false;
+        if (site == S_CV_WAIT_UNTIL)
+        {
+            // the waiter has just released the cv's internal lock: a notify can take its queue entry only from now on, so every
+            // wake-up that is already pending belongs to an earlier wait
+            std::unique_lock<std::mutex> l(s->m);
+            LThread& me = *s->ts[static_cast<std::size_t>(tl_self)];
+            me.tokens_before_timed_wait = me.pending_resume;
+        }
+        if (site == S_ONCE_BEFORE_CAS)
+        {
+            // top of a retry loop that re-checks a flag another thread has to change: passing it again while nobody else has moved
+            // in between is spinning (the thread becomes eligible again after somebody else progressed); the first pass and passes
+            // after foreign progress are ordinary decision points
+            LThread& me = *s->ts[static_cast<std::size_t>(tl_self)];
+            std::uint64_t others = s->progress - me.own_progress;
+            spin = me.seen_retry_site && me.others_at_retry_site == others;
+            me.seen_retry_site = true;
+            me.others_at_retry_site = others;
+        }
+        s->decision(spin);
     }
     inline void install_vt_hook() { pika::verif::hook.store(&vt_hook); }
 
